@@ -24,7 +24,7 @@ type vPlanConn struct {
 
 func (c *vPlanConn) Write(b []byte) (int, error) {
 	n, err := c.vConn.Write(b)
-	if !vInEngine() && c.answerAt != 0 && len(c.vConn.writes) == c.answerAt {
+	if c.answerAt != 0 && len(c.vConn.writes) == c.answerAt {
 		go c.pc.handleIncomingResponse(c.reply)
 	}
 	return n, err
@@ -44,20 +44,10 @@ func H_C12_retransmit() {
 	reply := message.NewHeartbeatResponse(r.msg.Sequence(), ie.NewRecoveryTimeStamp(vTS))
 	pc := &vPlanConn{vConn: e.conn, pc: e.pc, answerAt: answerAt, reply: reply}
 	e.pc.Conn = pc
-	calls := 0
-	if vInEngine() {
-		// Request.GetResponse waits on a timer and two channels; under the engine
-		// it is replaced by the plan: the wait after the k-th transmission
-		// returns the reply iff k == answerAt, otherwise it times out.
-		vOverride("(*github.com/omec-project/upf-epc/pfcpiface.Request).GetResponse", func(rq *Request, done <-chan struct{}, d time.Duration) (message.Message, bool) {
-			calls++
-			if calls == answerAt {
-				e.pc.pendingReqs.Delete(rq.msg.Sequence())
-				return reply, false
-			}
-			return nil, true
-		})
-	}
+	// The real Request.GetResponse (timer + two channels) and the real
+	// handleIncomingResponse run under the engine: the peer is a goroutine that
+	// answers the answerAt-th transmission; the response timer fires when no
+	// goroutine can make progress otherwise.
 	_, registeredBefore := e.pc.pendingReqs.Load(r.msg.Sequence())
 	got, timedOut := e.pc.sendPFCPRequestMessage(r)
 	n := len(e.conn.writes)
